@@ -45,7 +45,7 @@ MCStrayBase ==
 MCStrayOps == {Emit2, Create2, Delete1, FF}
 MCStrayOpsQuick == {Emit2, Create2}
 (* were any of them accepted, the property would fail: *)
-ASSUME \E p \in StrayPrograms : StrayBreaks(p)
+ASSUME StrayBase = {} \/ \E p \in StrayPrograms : StrayBreaks(p)
 
 (* Simulation (tlc -simulate): random derivations for bounds whose exhaustive enumeration is
    too large (<= 4 statements, nesting 2: 307 704 programs).  Every step of a trace draws one
